@@ -9,7 +9,7 @@ ID = "C11"
 COQ_DIR = "C11"
 RUN_MOD = "C11.Run"
 MODEL_TARGETS = ["C11/Run.vo"]
-PROOF_TARGETS = ["C11/Lemmas.vo", "C11/LemmasWrap.vo"]
+PROOF_TARGETS = ["C11/Lemmas.vo", "C11/LemmasWrap.vo", "C11/LemmasPalette.vo"]
 PROPS = ["C11/Props.v"]
 ALLOWED_AXIOMS = []
 IMPL_TIMEOUT = 10.0
@@ -653,7 +653,57 @@ def gen_cases(rng, tier):
         m = rng.choice(["json", "py"])
         json_ok = m == "json" and rng.random() < 0.9
         add("random", rvalue(rng, rng.randrange(1, 7), json_ok), m)
+    # every 4th of the cases above is rendered under a configuration drawn at random (the layout must not
+    # depend on how the no-colour output was asked for)
+    pools = {m: all_cfgs(m, True) for m in ("json", "py")}
+    for c in cases:
+        if rng.random() < 0.25:
+            c["cfg"] = dict(rng.choice(pools[c["mode"]]))
+    # the configuration of the call: EVERY combination of printer object x palette= x colors_conf= x no_color= x
+    # global configuration that asks for no-colour output (see DEFAULT_CFG), on a handful of values with keys,
+    # keywords, numbers and strings (one-line, nested, wrapped); the twice-rendering is left to the oracle
+    vals = config_values(rng)
+    for i in range(30 if big else 0):
+        vals.append(rvalue(rng, rng.randrange(1, 5), True))
+    for v in vals:
+        for m in ("json", "py"):
+            for cfg in all_cfgs(m, big):
+                cases.append({"kind": "config", "mode": m, "v": enc(v), "cfg": cfg, "wm": 0})
     return cases
+
+
+def all_cfgs(mode, full):
+    """every configuration of the call that asks for no-colour output; not full: the printer kinds other than the
+    shared / module-level ones are crossed with the default global configuration only"""
+    out = []
+    for g in (None, "col", "nc"):
+        for pal in PALS:
+            for cc in ((None,) if pal in PAL_OBJ_BUILT else (None, "col", "nc")):
+                for nc in (1, 0, None):
+                    for k in KINDS[mode]:
+                        if not full and g is not None and k not in ("shared", "pp"):
+                            continue
+                        c = {"k": k, "pal": pal, "cc": cc, "nc": nc, "g": g}
+                        if cfg_valid(c, mode):
+                            out.append({x: y for x, y in c.items() if y != DEFAULT_CFG[x]} or {"k": "shared"})
+    return out
+
+
+def config_values(rng):
+    long_list = []
+    for i in range(45):
+        long_list += [i * 37 % 1000, rng.choice([True, False, None]), "item%03d" % i, round(rng.uniform(-9, 9), 2)][: 1 + i % 4]
+    rnd = rvalue(rng, 3, True)
+    if not isinstance(rnd, (list, dict)) or not rnd:
+        rnd = [rnd, {"k": [rnd, None]}]
+    return [
+        [True, 0, "s", None, -2.5],
+        {"name": "x1", "flags": [True, False, None], "numbers": [1, -2, 3.5, 1e100],
+         "nested": {"b": {"k": [1, 2, {"z": "w"}]}, "a": [], "": {}}},
+        {"long": long_list, "k": None, "n": 17},
+        {"b": 1, "a": {"c": [None, 2.5, "\xe9\u4e2d", [False]]}, "": ""},
+        rnd,
+    ]
 
 
 def search_cases(rng, tier):
@@ -699,30 +749,173 @@ def _interleave(its):
                 sink.append(x)
 
 
+# ---- the configuration of the call (case["cfg"]; absent = DEFAULT_CFG) -------------------------------------------
+# k    which printer object:  "shared" PrettyPrinter(fmt_json=True/False), one per mode per worker process;
+#      "int" PrettyPrinter(fmt_json=1 / 0), made for the case;  py mode only: "pp" the module-level ak.ppobj.pp,
+#      "ctor0" PrettyPrinter() without arguments, made for the case
+# pal  the palette= argument: None (omitted) | "cls-default" PrettyPrinter.PPPalette | "cls-sub" a subclass with
+#      other colours | "cls-sub2" a subclass of it with syntax ids of its own (SYNTAX_DEFAULTS) | a ready OBJECT:
+#      "obj-default" PPPalette() | "obj-sub" Sub() | "obj-sub2" Sub2() | "obj-sub-cc" Sub(<config with other colours>)
+#      | "obj-nc" Sub(no_color=True) | "obj-ccn" Sub(<no_color config>) | "obj-synced" PPPalette(synced=True)
+# cc   the colors_conf= argument: None (omitted) | "col" a ColorsConfig with other colours | "nc" ColorsConfig(no_color=True)
+# nc   the no_color= argument: 1 True | 0 False | None omitted   (0 / None only where the configuration is no-colour by itself)
+# g    the global colours configuration during the case: None (as found) | "col" other colours | "nc" a no_color one
+DEFAULT_CFG = {"k": "shared", "pal": None, "cc": None, "nc": 1, "g": None}
+PALS = [None, "cls-default", "cls-sub", "cls-sub2", "obj-default", "obj-sub", "obj-sub2", "obj-sub-cc", "obj-nc",
+        "obj-ccn", "obj-synced"]
+KINDS = {"json": ["shared", "int"], "py": ["shared", "pp", "ctor0", "int"]}
+# how the palette objects are built: (no_color, colors_conf) of cls(colors_conf, no_color)
+PAL_OBJ_BUILT = {"obj-default": (0, None), "obj-sub": (0, None), "obj-sub2": (0, None), "obj-sub-cc": (0, "col"),
+                 "obj-nc": (1, None), "obj-ccn": (0, "nc"), "obj-synced": (0, None)}
+
+
+def cfg_of(case):
+    c = dict(DEFAULT_CFG)
+    c.update(case.get("cfg") or {})
+    return c
+
+
+def cfg_valid(c, mode):
+    """a configuration the generator may produce (shrinking keeps to these)"""
+    return (c.get("k") in KINDS[mode] and c.get("pal") in PALS and c.get("cc") in (None, "col", "nc")
+            and c.get("nc") in (1, 0, None) and c.get("g") in (None, "col", "nc")
+            and not (c["pal"] in PAL_OBJ_BUILT and c["cc"] is not None)
+            and (c["nc"] == 1 or cfg_plain_without_no_color(c)))
+
+
+def cfg_plain_without_no_color(c):
+    """the documented meaning of the arguments (ak/color.py: ColorsConfig 'no_color: if True - ignores all other config
+    settings and creates no-color config'; Palette 'no_color: if True creates a palette object which produces text
+    without any coloring effects'; 'colors_conf: global colors config is used by default'): is the output colour-free
+    even without no_color=True?  Used by the generator only (the model has its own rule, C11/Palette.v)."""
+    def conf_plain(cc):
+        return cc == "nc" or (cc is None and c["g"] == "nc")
+    if c["pal"] in PAL_OBJ_BUILT:
+        onc, occ = PAL_OBJ_BUILT[c["pal"]]
+        return bool(onc) or conf_plain(occ)
+    return conf_plain(c["cc"])
+
+
+def cfg_text(c):
+    d = {k: v for k, v in c.items() if v != DEFAULT_CFG.get(k)}
+    return ", ".join(f"{k}={d[k]}" for k in sorted(d)) or "default"
+
+
+_ENV = {}
+
+
+def _env():
+    """palette classes / colour configurations of the worker process (made once: palettes are cached per class and per
+    configuration, which is the state a defect of the no-colour handling would live in)"""
+    if not _ENV:
+        from ak.ppobj import PrettyPrinter
+        from ak.color import ConfColor, ColorsConfig
+
+        class Sub(PrettyPrinter.PPPalette):
+            """application palette with other colours"""
+            number = ConfColor("WARN")
+            keyword = ConfColor("ERROR")
+
+        class Sub2(Sub):
+            """... with syntax ids of its own, the plain text included"""
+            SYNTAX_DEFAULTS = {"VERIF.NUM": "RED/BLUE:bold,underline", "VERIF.KEY": "NAME:no_bold",
+                               "VERIF.TEXT": "CYAN"}
+            number = ConfColor("VERIF.NUM")
+            name = ConfColor("VERIF.KEY")
+            text = ConfColor("VERIF.TEXT")
+
+        other = {"TEXT": "GREEN", "NAME": "CYAN:underline", "NUMBER": "RED/BLUE", "KEYWORD": "MAGENTA:bold",
+                 "WARN": "YELLOW:blink"}
+        _ENV.update(PPPalette=PrettyPrinter.PPPalette, Sub=Sub, Sub2=Sub2,
+                    cc={"col": ColorsConfig(other), "nc": ColorsConfig(other, no_color=True)},
+                    g={"col": ColorsConfig(dict(other, TEXT="BLUE")), "nc": ColorsConfig(no_color=True)})
+    return _ENV
+
+
+def _mk_pal(name, E):
+    if name is None:
+        return None
+    if name == "cls-default":
+        return E["PPPalette"]
+    if name == "cls-sub":
+        return E["Sub"]
+    if name == "cls-sub2":
+        return E["Sub2"]
+    if name == "obj-default":
+        return E["PPPalette"]()
+    if name == "obj-sub":
+        return E["Sub"]()
+    if name == "obj-sub2":
+        return E["Sub2"]()
+    if name == "obj-sub-cc":
+        return E["Sub"](E["cc"]["col"])
+    if name == "obj-nc":
+        return E["Sub"](no_color=True)
+    if name == "obj-ccn":
+        return E["Sub"](E["cc"]["nc"])
+    if name == "obj-synced":
+        return E["PPPalette"](synced=True)
+    raise ValueError(name)
+
+
 def impl_run(case):
+    import contextlib
+    import io
     from ak.ppobj import PrettyPrinter
+    from ak import color as akcolor
+    from ak import ppobj as akppobj
     v = dec(case["v"])
     before = enc(v)
+    cfg = cfg_of(case)
+    js = case["mode"] == "json"
     views = []   # (name, [line text])   every one of them must be the lines of the no-colour rendering of v
     texts = []   # (name, text)          every one of them must be the whole no-colour text of v
     wviews = []  # the same for twice(v)
+    saved_global = late = None
     try:
+        E = _env()
+        if cfg["g"] is not None:
+            saved_global = akcolor.get_global_colors_config()
+            akcolor.set_global_colors_config(E["g"][cfg["g"]])
         # one printer object per mode for the whole worker process, and a coloured rendering of
         # the same value consumed first: what the no-colour output is must not depend on what the
         # printer rendered before (a memory of earlier, coloured renderings is how caches go wrong)
         for m in ("json", "py"):
             if m not in _PRINTERS:
                 _PRINTERS[m] = PrettyPrinter(fmt_json=(m == "json"))
-        pp = _PRINTERS[case["mode"]]
-        po = _PRINTERS["py" if case["mode"] == "json" else "json"]   # the printer of the other mode
-        early = pp(v, no_color=True)   # made before anything else is rendered, consumed last
-        coloured = pp(v)
+        if cfg["k"] == "shared":
+            pp = _PRINTERS[case["mode"]]
+        elif cfg["k"] == "int":
+            pp = PrettyPrinter(fmt_json=(1 if js else 0))
+        elif cfg["k"] == "pp" and not js:
+            pp = akppobj.pp
+        elif cfg["k"] == "ctor0" and not js:
+            pp = PrettyPrinter()
+        else:
+            raise ValueError("printer kind")
+        po = _PRINTERS["py" if js else "json"]   # the printer of the other mode
+        # the arguments of the call: the no-colour call (kw) and the same call without no_color (ckw: coloured,
+        # unless the configuration is no-colour by itself)
+        ckw = {}
+        palette = _mk_pal(cfg["pal"], E)   # a ready object is built once and used for every call of the case
+        if palette is not None:
+            ckw["palette"] = palette
+        if cfg["cc"] is not None:
+            ckw["colors_conf"] = E["cc"][cfg["cc"]]
+        kw = dict(ckw)
+        if cfg["nc"] is not None:
+            kw["no_color"] = bool(cfg["nc"])
+        early = pp(v, **kw)   # made before anything else is rendered, consumed last
+        # a result asked for with no_color=True while another global configuration is in force, consumed after
+        # the former global configuration is back (the result is lazy; what it prints was decided by the call)
+        late = pp(v, **kw) if saved_global is not None and cfg["nc"] == 1 else None
+        coloured = pp(v, **ckw)
         str(coloured)
         for _ in coloured:
             pass
-        str(po(v, no_color=True))      # what the other printer renders is its own business
+        str(po(v, **kw))      # what the other printer renders is its own business
         # (1) str() first, then the lines, each converted as soon as it is yielded
-        r = pp(v, no_color=True)
+        r = pp(v, **kw)
         # what a user gets from the no-colour result is str(): the text as printed (plain_text()
         # would hide an escape sequence that leaked into the no-colour output)
         texts.append(("str", str(r)))
@@ -731,13 +924,30 @@ def impl_run(case):
         texts.append(("plain_text", r.plain_text()))
         copy = r.get_ch_text()
         texts.append(("get_ch_text", str(copy)))
+        # every other public way to the text: format / f-string, %s, print, sums, slices
+        texts.append(("format", format(r, "")))
+        texts.append(("f-string", f"{r}"))
+        texts.append(("percent-s", "%s" % (r,)))
+        buf = io.StringIO()
+        print(r, file=buf)
+        texts.append(("print", buf.getvalue()[:-1] if buf.getvalue().endswith("\n") else buf.getvalue() + "<no newline>"))
+        texts.append(("add-empty-str", str(r + "")))
+        texts.append(("radd-empty-str", str("" + r)))
+        texts.append(("slice-all", str(r[:])))
+        texts.append(("fixed_len(len())", str(r.fixed_len(len(r)))))
+        texts.append(("len", texts[0][1] if len(r) == len(texts[0][1]) else f"<len() is {len(r)}, str() has {len(texts[0][1])} characters>"))
+        views.append(("lines-format", [format(ln, "") for ln in r]))
+        buf = io.StringIO()
+        for ln in r:
+            print(ln, file=buf)
+        views.append(("lines-printed", buf.getvalue().split("\n")[:-1] if wsplit_ok(case) else views[0][1]))
         # what the user does with the copy / with sums must not reach the result object
         copy += "#"
         _ = (r + "#", "#" + r)
         texts.append(("str-after-extending-a-copy", str(r)))
         # (2) the lines collected first (a user may keep the line objects), converted afterwards; str() after
         #     the iteration; a second iteration of the same result; the first collection once more
-        r2 = pp(v, no_color=True)
+        r2 = pp(v, **kw)
         kept = list(r2)
         views.append(("collected-then-converted", [str(x) for x in kept]))
         views.append(("collected-plain_text", [x.plain_text() for x in kept]))
@@ -750,23 +960,46 @@ def impl_run(case):
         #     and the no-colour result of a value that contains the object v twice
         w = twice(v)
         la, lb, lw = [], [], []
-        rw = pp(w, no_color=True)
-        _interleave([(iter(pp(v, no_color=True)), la), (iter(rw), lw), (iter(pp(v)), None),
-                     (iter(pp(v, no_color=True)), lb), (iter(pp(w)), None), (iter(po(w, no_color=True)), None)])
+        rw = pp(w, **kw)
+        _interleave([(iter(pp(v, **kw)), la), (iter(rw), lw), (iter(pp(v, **ckw)), None),
+                     (iter(pp(v, **kw)), lb), (iter(pp(w, **ckw)), None), (iter(po(w, **kw)), None)])
         views.append(("interleaved-first", [str(x) for x in la]))
         views.append(("interleaved-second", [str(x) for x in lb]))
         wviews.append(("interleaved", [str(x) for x in lw]))
         wviews.append(("str-split", str(rw).split("\n")))
-        wviews.append(("collected", [str(x) for x in list(pp(w, no_color=True))]))
+        wviews.append(("collected", [str(x) for x in list(pp(w, **kw))]))
         # (4) a printer of its own
-        fresh = PrettyPrinter(fmt_json=(case["mode"] == "json"))
-        views.append(("fresh-printer", [str(x) for x in list(fresh(v, no_color=True))]))
-        texts.append(("fresh-printer", str(fresh(v, no_color=True))))
-        # (5) the result made at the very beginning, consumed after the printer rendered all of the above
+        fresh = PrettyPrinter(fmt_json=js)
+        views.append(("fresh-printer", [str(x) for x in list(fresh(v, **kw))]))
+        texts.append(("fresh-printer", str(fresh(v, **kw))))
+        # (5) the plain call  pp(v, no_color=True)  of the shared printer (the reference configuration) -- after
+        #     the configured calls: the no-colour palette of a class is cached on the class
+        if case.get("cfg"):
+            views.append(("default-call-afterwards", [str(x) for x in _PRINTERS[case["mode"]](v, no_color=True)]))
+            texts.append(("default-call-afterwards", str(_PRINTERS[case["mode"]](v, no_color=True))))
+        # (6) under a no_color GLOBAL configuration the console wrapper prints the no-colour Python text
+        if cfg["g"] == "nc" and not js:
+            texts.append(("PPWrap-str", str(akppobj.PPWrap(v))))
+            buf = io.StringIO()
+            with contextlib.redirect_stdout(buf):
+                rep = repr(akppobj.PPWrap(v))
+            texts.append(("PPWrap-repr-printed", buf.getvalue()[:-1] if rep == "" and buf.getvalue().endswith("\n")
+                          else f"<repr {rep!r:.40} printed {buf.getvalue()!r:.200}>"))
+            texts.append(("module-pp-default-arguments", str(akppobj.pp(v))))
+        # (7) the result made at the very beginning, consumed after the printer rendered all of the above
         views.append(("early-result-consumed-last", [str(x) for x in list(early)]))
         texts.append(("early-result-consumed-last", str(early)))
     except Exception as e:
         return {"exc": SX.exc_name(e), "stage": len(views) + len(texts) + len(wviews)}
+    finally:
+        if saved_global is not None:
+            akcolor.set_global_colors_config(saved_global)
+    if late is not None:
+        try:
+            views.append(("consumed-after-the-global-configuration-was-restored", [str(x) for x in late]))
+            texts.append(("consumed-after-the-global-configuration-was-restored", str(late)))
+        except Exception as e:
+            return {"exc": SX.exc_name(e), "stage": "late"}
     for _n, t in texts:
         if not isinstance(t, str):
             return {"exc": "NotAString"}
@@ -861,7 +1094,27 @@ def coq_case(case, obs):
     else:
         views = _coq_views(obs["lines"], obs.get("views") or {})
         wviews = _coq_views(obs["wlines"], _wothers(case, obs)) if case.get("wm", 1) else "[]"
-    return f"PP {'Json' if case['mode'] == 'json' else 'Py'} ({coq_value(expand(case['v']))}) {views} {wviews}"
+    m = "Json" if case["mode"] == "json" else "Py"
+    if case.get("cfg"):
+        return f"PPC {m} ({coq_value(expand(case['v']))}) {coq_cfg(cfg_of(case))} {views} {wviews}"
+    return f"PP {m} ({coq_value(expand(case['v']))}) {views} {wviews}"
+
+
+def _coq_conf(cc):
+    return "ConfNone" if cc is None else f"(ConfGiven {SX.cbool(cc == 'nc')})"
+
+
+def coq_cfg(c):
+    """the configuration as C11.Palette.cfg (the printer kind does not enter: it only decides the mode)"""
+    pal = c["pal"]
+    if pal is None:
+        p = "PalNone"
+    elif pal in PAL_OBJ_BUILT:
+        onc, occ = PAL_OBJ_BUILT[pal]
+        p = f"(PalObj {SX.cbool(bool(onc))} {_coq_conf(occ)})"
+    else:
+        p = "PalClass"
+    return f"(Cfg {p} {SX.cbool(c['nc'] == 1)} {_coq_conf(c['cc'])} {SX.cbool(c['g'] == 'nc')})"
 
 
 def in_model(case, obs):
@@ -955,6 +1208,19 @@ def _first_line_diff(a, b):
 
 
 def oracle(case, obs):
+    out = _oracle(case, obs)
+    if case.get("cfg"):
+        how = f"  [call: {cfg_text(cfg_of(case))}]"
+        out = [(sig, msg + how) for sig, msg in out]
+    return out
+
+
+def _has_esc(v):
+    return any("\x1b" in x for y in _walk(v) for x in ([y] if isinstance(y, str) else list(y) if isinstance(y, dict) else [])
+               if isinstance(x, str))
+
+
+def _oracle(case, obs):
     if "__hang__" in obs:
         return [("hang", "pretty printing did not return")]
     v = dec(case["v"])
@@ -980,6 +1246,9 @@ def oracle(case, obs):
                     f"differ from str(); '{n}' gives {obs['texts'][n]!r:.300} instead of {text!r:.300}; value {v!r:.300}"))
     if obs.get("input_changed"):
         out.append(("input-mutated", f"pretty printing changed the value it was given: {v!r:.300}"))
+    # "the no-color output": no escape sequence, however the no-colour output was asked for
+    if "\x1b" in text and not _has_esc(v):
+        out.append(("colour-in-no-colour-output", f"the no-colour {mode} text of {v!r:.200} contains escape sequences: {text!r:.200}"))
     if not readable(v, mode):
         return out
     try:
@@ -1041,6 +1310,21 @@ def shrink_candidates(case):
             yield ["s", a[: len(a) // 2]]
             yield ["s", a[:-1]]
 
+    # a simpler configuration of the call first (one argument back to its default at a time)
+    if case.get("cfg"):
+        c = cfg_of(case)
+        for f in ("g", "k", "cc", "pal", "nc"):
+            if c[f] != DEFAULT_CFG[f]:
+                c2 = dict(c)
+                c2[f] = DEFAULT_CFG[f]
+                if cfg_valid(c2, case["mode"]):
+                    c2 = {x: y for x, y in c2.items() if y != DEFAULT_CFG[x]}
+                    smaller = dict(case)
+                    if c2:
+                        smaller["cfg"] = c2
+                    else:
+                        smaller.pop("cfg")
+                    yield smaller
     t, a = case["v"]
     if t == "l":
         for x in a:
